@@ -7,9 +7,10 @@ cd "$(dirname "$0")/.."
 if ! git -C /repo diff --quiet; then echo "/repo has uncommitted changes; refusing" >&2; exit 2; fi
 git -C /repo apply "$patch" || { echo "patch does not apply" >&2; exit 2; }
 trap 'git -C /repo checkout -- . ' EXIT
+trap 'exit 143' TERM INT HUP
 for p in "$@"; do
   t0=$(date +%s)
-  out=$(bin/check run $p --tier $tier 2>&1)
+  out=$(timeout -k 10 ${TRY_TIMEOUT:-1000} bin/check run $p --tier $tier 2>&1)
   rc=$?
   echo "$p rc=$rc $(( $(date +%s) - t0 ))s :: $(echo "$out" | grep -E "^(VIOLATION|INCONCLUSIVE|HARNESS|BUILD)" | cut -c1-260 | head -2 | tr '\n' '|')"
 done
